@@ -445,14 +445,31 @@ theorem arrListUnguarded_wraps : arrListUnguarded 32768 = .ok (-32768) ∧ arrSt
   refine ⟨?_, by decide, by decide⟩
   rw [arrListUnguarded_spec]; decide
 
-/-- QUIRK (not a panic): `MapDim: 1 + $4` has no guard; 32767 inner dimensions
-wrap it to −32768 -/
-theorem mapDim_wraps : mapDim 32767 = -32768 ∧ (∀ n : Int, 0 ≤ n → n < 32767 → mapDim n = n + 1) := by
+/-- before the repair: `MapDim: 1 + $4` had no guard; 32767 inner dimensions
+wrapped it to −32768 -/
+theorem mapDimUnguarded_wraps : mapDimUnguarded 32767 = -32768 ∧
+    (∀ n : Int, 0 ≤ n → n < 32767 → mapDimUnguarded n = n + 1) := by
   refine ⟨by decide, ?_⟩
   intro n h0 h1
-  unfold mapDim
+  unfold mapDimUnguarded
   rw [wrap16_id (by omega) (by omega)]
   omega
+
+/-- the guarded action: for every inner dimension count the `arr_list` counter
+can deliver (0 … 32767) the map dimension is exact and below 2^15, or a
+located error -/
+theorem mapDim_total (n : Int) (h0 : 0 ≤ n) (h1 : n ≤ 32767) :
+    (mapDim n = .ok (n + 1) ∧ n + 1 < 2 ^ 15) ∨ (mapDim n = .error ∧ n = 32767) := by
+  unfold mapDim maxDim
+  by_cases h : n = 32767
+  · right; subst h; exact ⟨by decide, rfl⟩
+  · left
+    have hne : (n == (2 : Int) ^ 15 - 1) = false := by
+      simp only [beq_eq_false_iff_ne, ne_eq]; omega
+    rw [hne]
+    simp only [Bool.false_eq_true, if_false]
+    rw [wrap16_id (by omega) (by omega)]
+    exact ⟨by rw [Int.add_comm], by omega⟩
 
 theorem idSliceAction_id (t : Bytes) : idSliceAction t = .ok t := by simp [idSliceAction]
 
